@@ -60,7 +60,7 @@ def rejection_class(errors: list, new=None, info=None) -> str:
     t = " ".join(errors)
     if info and info.get("container"):
         if info["name"] in ("T->T?", "T?->T"):
-            return "optional-of-container"
+            return "optional-of-union" if info["container"] == "union" else "optional-of-container"
         if info["name"] == "introduce-alias":
             return "alias-of-container-as-item"
     ma = re.search(r"this change to '(\w+)' is not backward compatible: base definitions are incompatible", t)
